@@ -257,7 +257,7 @@ TraceWWriteP ==
     /\ IsEvent("WWriteP")
     /\ LET model == WriteTo(w, Ev.p)
            gated == RlLen(w) <= 4096
-           fails == IF Ev.r.k = "panic" \/ ~gated THEN {}
+           fails == IF Ev.r.k = "panic" \/ ~gated \/ Ev.p.ty = "raw" THEN {}    \* a raw io::Write is not a value C20 speaks about
                     ELSE IF Refused(Ev.p) THEN (IF Ev.r.k # "err" THEN {<< "C20", "oversized-value-not-refused-cleanly", Ev.p.ty >>} ELSE {})
                     ELSE IF Ev.r.k # "ok" THEN {<< "C20", "write-failed", Ev.p.ty >>}
                     ELSE IF Ev.r.n # RlLen(Encode(Ev.p)) THEN {<< "C20", "reported-size", Ev.p.ty >>}
